@@ -197,6 +197,46 @@ func harnessC16ConcurrentRegister() {
 	vCover("raced")
 }
 
+//verif:entry property=C16 tier=both bounds="upcasting a stored event along the chain A->B->C while another goroutine registers one more edge over 4 names (or clears the registry); every interleaving within the preemption bound; the upcast terminates and ends at a type reachable from A, the registry stays acyclic" cover="applied-while-registering" preempt_quick=2 preempt_thorough=3 race=on
+func harnessC16ApplyWhileRegister() {
+	names := []string{"A", "B", "C", "D"}
+	bus := New()
+	r := bus.upcastRegistry
+	hop := func(to string) UpcastFunc {
+		return func(d json.RawMessage) (json.RawMessage, string, error) { return d, to, nil }
+	}
+	vAssert(RegisterUpcastFunc(bus, "A", "B", hop("B")) == nil, "register-ok")
+	vAssert(RegisterUpcastFunc(bus, "B", "C", hop("C")) == nil, "register-ok")
+	edges := []c16Edge{{"A", "B"}, {"B", "C"}}
+	f, t := names[vPick(4)], names[vPick(4)]
+	clear := vBool()
+	var endType string
+	var regErr error
+	var wg sync.WaitGroup
+	wg.Add(2)
+	go func() {
+		defer wg.Done()
+		_, endType, _ = r.apply(json.RawMessage(`{}`), "A")
+	}()
+	go func() {
+		defer wg.Done()
+		if clear {
+			bus.ClearUpcasts()
+		} else {
+			regErr = RegisterUpcastFunc(bus, f, t, hop(t))
+		}
+	}()
+	wg.Wait()
+	if !clear && regErr == nil {
+		edges = append(edges, c16Edge{f, t})
+	}
+	for _, e := range edges {
+		vAssert(!c16Reaches(edges, e.t, e.f), "racing-registrations-never-create-a-cycle")
+	}
+	vAssert(endType == "A" || c16Reaches(edges, "A", endType), "upcast-ends-at-a-reachable-type")
+	vCover("applied-while-registering")
+}
+
 //verif:entry property=C16 tier=both bounds="bus options: every list of K WithUpcast(from,to) options over 3 names given to New (K_quick=3, K_thorough=4); the resulting registry must be acyclic and equal to what RegisterUpcastFunc would have accepted in that order" cover="built" K_quick=3 K_thorough=4
 func harnessC16WithUpcastOptions() {
 	K := vParam("K", 3)
